@@ -33,7 +33,8 @@ EXTENDS Naturals, Sequences, FiniteSets, TLC, Json, IOUtils
 
 CONSTANTS Source,       \* "enum" | "file"
           OrderMode,    \* "all": every interleaving of the calls; "Bfixed": B's calls in the order docstring, summary, toc
-          BMenu         \* "small" | "full": fault sets tried for B's own docstring
+          BMenu,        \* "small" | "full": fault sets tried for B's own docstring
+          Ns            \* numbers of errors a parser that returns with errors may report (subset of 1..2)
 
 Objs == {"A", "B"}
 Ops  == {"docstring", "summary", "toc"}
@@ -136,7 +137,7 @@ Blank == [pd |-> [o \in Objs |-> "none"], ps |-> [o \in Objs |-> "none"], perr |
 InitEnum == /\ Source = "enum" /\ tid = 0
             /\ inherit \in BOOLEAN /\ kindA \in {"func", "cls"}
             /\ (kindA = "cls" => ~inherit)
-            /\ F \in [Objs -> {f \in Fault : Canonical(f)}]
+            /\ F \in [Objs -> {f \in Fault : Canonical(f) /\ f.n \in Ns}]
             /\ (inherit => F["B"] = NoFault)
             /\ (~inherit => F["B"] \in (IF BMenu = "small" THEN SmallMenu ELSE {f \in Fault : Canonical(f) /\ f.n = 1}))
             /\ order \in Orders
